@@ -98,11 +98,11 @@ var specs = []CheckSpec{
 		Harnesses: []HarnessSpec{
 			{Fn: "VerifC02Split", Quick: map[string]int{"N": 6}, Thorough: map[string]int{"N": 9}, Witness: []string{"parsed", "two-words", "unterminated"}, Native: true},
 			{Fn: "VerifC02QuoteLaw", Quick: map[string]int{"K": 2, "W": 3}, Thorough: map[string]int{"K": 3, "W": 4}, Witness: []string{"quoted-parse"}, Native: true},
-			{Fn: "VerifC02Expand", Quick: map[string]int{"H": 2, "VL": 2}, Thorough: map[string]int{"H": 3, "VL": 2}, Witness: []string{"expanded", "reassigned"}, Native: true},
+			{Fn: "VerifC02Expand", Quick: map[string]int{"H": 3, "VL": 1}, Thorough: map[string]int{"H": 3, "VL": 2}, Witness: []string{"expanded", "reassigned"}, Native: true},
 		},
 		Bounds: map[string]string{
-			"quick":    "all lines of <= 6 bytes without '$' or newline against a reference tokenizer; all lists of <= 2 words of <= 3 arbitrary bytes (no newline) quoted and re-parsed; all histories of <= 2 assignments (via Setenv or the env builtin) to {A,B,AB} with values of <= 2 arbitrary bytes, six reference forms ($K, ${K}, x$K/y, ${K}B, ${K@R}, '$K'$K)",
-			"thorough": "lines <= 9 bytes; <= 3 words of <= 4 bytes; <= 3 assignments",
+			"quick":    "all lines of <= 6 bytes without '$' or newline against a reference tokenizer; all lists of <= 2 words of <= 3 arbitrary bytes (no newline) quoted and re-parsed; all histories of <= 3 assignments (via Setenv or the env builtin) to {A,B,AB} with values of <= 1 arbitrary byte, six reference forms ($K, ${K}, x$K/y, ${K}B, ${K@R}, '$K'$K)",
+			"thorough": "lines <= 9 bytes; <= 3 words of <= 4 bytes; <= 3 assignments of values of <= 2 bytes",
 		},
 		Assumptions: append([]string{"${K@R}: 'matches exactly' is reduced to the contract of regexp.QuoteMeta (every metacharacter escaped), interpreted from its SSA; the regexp engine itself is not encoded", "programs see ts.env with os/exec's documented last-entry-wins rule"}, commonAssumptions...),
 		Outside:     []string{"Windows case folding of variable names", "malformed references such as ${ or $ at end of word (os.Expand's documented behaviour)", "the regexp matcher"},
@@ -143,10 +143,10 @@ var specs = []CheckSpec{
 	{
 		ID: "C13", Pkg: "cache", UsesVFS: true,
 		Harnesses: []HarnessSpec{
-			{Fn: "VerifC13Trim", Quick: map[string]int{"E": 1, "LK": 1}, Thorough: map[string]int{"E": 2, "LK": 1}, Witness: []string{"due", "not-due", "stale-removed", "lookup-before-trim", "trim-record-missing", "trim-record-digits", "trim-record-corrupt", "trim-record-unreadable"}},
+			{Fn: "VerifC13Trim", Quick: map[string]int{"E": 1, "LK": 1, "EPOCHS": 1}, Thorough: map[string]int{"E": 2, "LK": 1, "EPOCHS": 2}, Witness: []string{"clock-past-2038", "due", "not-due", "stale-removed", "lookup-before-trim", "trim-record-missing", "trim-record-digits", "trim-record-corrupt", "trim-record-unreadable"}},
 		},
 		Bounds: map[string]string{
-			"quick":    "one cache subdirectory with <= 1 file from an 8-name template (entry names with -a/-d suffix, trim.txt, README, x-b, -a, fuzz, a1-ab) with a symbolic modification time within +-20 days of now; last-trim record missing / unreadable / 6 corrupt forms / 10 decimal digits of which the last 6 are symbolic (+-11 days around now at second resolution), optionally blank-padded; <= 1 preceding lookup at a symbolic earlier time through the real used(); now fixed to 1700000000 (all comparisons are on differences)",
+			"quick":    "one cache subdirectory with <= 1 file from an 8-name template (entry names with -a/-d suffix, trim.txt, README, x-b, -a, fuzz, a1-ab) with a symbolic modification time within +-20 days of now; last-trim record missing / unreadable / 6 corrupt forms / 10 decimal digits of which the last 6 are symbolic (+-11 days around now at second resolution), optionally blank-padded; <= 1 preceding lookup at a symbolic earlier time through the real used(); the instant of Trim chosen from {1700000000, 2200000000} (thorough: also 4400000000), i.e. before and after 2^31 and 2^32 seconds",
 			"thorough": "<= 2 files per subdirectory",
 		},
 		Stubs: []string{"as C05, plus syscall.Flock (always succeeds) under lockedfile.Read/Write", "(time.Time).Sub on symbolic whole-second times: modelled as delta*1e9 under the path assumption |delta| < 2^33 s, with comparisons against constants rewritten to comparisons of delta (see symx/timemodel.go)"},
@@ -203,17 +203,17 @@ var specs = []CheckSpec{
 			{Fn: "VerifC01Exit", Pkg: "cmd/testscript", Quick: map[string]int{}, Thorough: map[string]int{}, Witness: []string{"some-script-failed", "no-script-failed", "two-scripts"}},
 		},
 		Bounds: map[string]string{
-			"quick":    "scripts of <= 2 lines over a menu of 22 line shapes (probe, ! probe, [c] probe, [!c] probe, [c] ! probe, two condition prefixes of either polarity with optional !, stop, ! stop, skip, unknown command, [c] alone, ! alone, # phase, blank, bad condition, exists / ! exists / exists-missing, cmp / ! cmp on two archive files with symbolic contents, mkdir, chmod with two paths); probe outcomes, the two condition values, file contents and ContinueOnError symbolic; run through the real RunT with a synchronous recording T; the standalone command's own T (cmd/testscript runT) over one or two scripts of <= 2 lines from {probe, skip, stop, unknown command}: failed run reported iff some script failed",
+			"quick":    "scripts of <= 2 lines over a menu of 25 line shapes (probe, ! probe, [c] probe, [!c] probe, [c] ! probe, two condition prefixes of either polarity with optional !, stop, ! stop, skip, unknown command, [c] alone, ! alone, # phase, blank, bad condition, exists / ! exists / exists-missing, cmp / ! cmp on two archive files with symbolic contents, mkdir, chmod with two paths, grep / ! grep / grep -count=N on a file with 0-3 matching lines); probe outcomes, the two condition values, file contents and ContinueOnError symbolic; run through the real RunT with a synchronous recording T; the standalone command's own T (cmd/testscript runT) over one or two scripts of <= 2 lines from {probe, skip, stop, unknown command}: failed run reported iff some script failed",
 			"thorough": "<= 3 lines",
 		},
 		Stubs: []string{"vfs model for os/file calls, time.Now/Since (concrete clock), regexp on concrete arguments (native), flag definitions, sync (sequential)", "T: synchronous recording implementation; FailNow/Skip unwind by panic (deferred functions run as with runtime.Goexit)"},
 		Assumptions: append([]string{"the reference evaluator over line selectors (40 lines, in the harness) states the property: first failing line decides, stop = pass, skip = skipped unless a line already failed, [cond] false lines have no effect, ContinueOnError runs every line and still fails"}, commonAssumptions...),
-		Outside:     []string{"exec, background commands (&), kill, wait on real processes, grep/stdout/stderr matching on symbolic text, symlink, unix2dos, cmpenv (C16 covers cmpenv under UpdateScripts), stdin/ttyin", "parallel subtests (C04)", "the standalone command's flag parsing, stdin handling and os.Exit call (the harness mirrors the tail of mainerr: r.Run + r.failed)", "scripts longer than the bound"},
+		Outside:     []string{"exec, background commands (&), kill, wait on real processes, stdout/stderr matching, grep on symbolic text (regexp runs natively on concrete text only), symlink, unix2dos, cmpenv (C16 covers cmpenv under UpdateScripts), stdin/ttyin", "parallel subtests (C04)", "the standalone command's flag parsing, stdin handling and os.Exit call (the harness mirrors the tail of mainerr: r.Run + r.failed)", "scripts longer than the bound"},
 	},
 	{
 		ID: "C16", Pkg: "testscript", UsesVFS: true,
 		Harnesses: []HarnessSpec{
-			{Fn: "VerifC16Update", Quick: map[string]int{"G": 2, "A": 2, "C": 1}, Thorough: map[string]int{"G": 2, "A": 3, "C": 2}, Witness: []string{"update", "no-update", "quoted-update", "rerun", "actual-has-marker", "cmp-from-subdirectory"}},
+			{Fn: "VerifC16Update", Quick: map[string]int{"G": 2, "A": 2, "C": 1}, Thorough: map[string]int{"G": 2, "A": 3, "C": 2}, Witness: []string{"update", "no-update", "quoted-update", "rerun", "actual-has-marker", "cmp-from-subdirectory", "duplicate-entry-name"}},
 		},
 		Bounds: map[string]string{
 			"quick":    "script archive with two golden entries of <= 2 symbolic bytes (+newline, or empty), one actual text on stdout (<= 2 arbitrary bytes, or a text containing a marker line with a symbolic byte), one comparison line: cmp / ! cmp / cmpenv against entry 0, entry 1 or a file outside the archive; UpdateScripts symbolic; second run of the real code on the rewritten script",
@@ -248,6 +248,19 @@ var specs = []CheckSpec{
 		Stubs:       []string{"time.Until returns the symbolic distance", "context.WithTimeout returns a model context recording its timeout, whose Err is DeadlineExceeded iff the harness's 'expired' choice", "os/exec.Command builds the Cmd value, (*exec.Cmd).Start succeeds", "testscript.waitOrStop is replaced by a recorder returning the chosen result (the function itself is decided by the tsys part of this check)", "file system as C01"},
 		Assumptions: append([]string{"PART CLAIMED (with the tsys part): grace period = max(100ms, 5% of the remaining time); the run context expires two grace periods before Params.Deadline; foreground commands wait on that context with kill delay = one grace period; a command error while the context has expired fails the script with the timed-out message, otherwise the usual verdict; without a deadline nothing expires. NOT claimed: wall-clock completion of RunT and its subtests, liveness of real child processes, scheduling slack"}, commonAssumptions...),
 		Outside:     []string{"real time and real processes", "background commands", "the interp of several scripts sharing one context (each gets the same ctx value; refCount/cancel is not examined)"},
+	},
+	{
+		ID: "C20", Pkg: "goproxytest", UsesVFS: true,
+		Harnesses: []HarnessSpec{
+			{Fn: "VerifC20Serve", Quick: map[string]int{"N": 2}, Thorough: map[string]int{"N": 5}, Witness: []string{"list-200", "list-404", "file-200", "file-404", "zip-200", "directory-layout"}},
+		},
+		Bounds: map[string]string{
+			"quick":    "module directories holding up to 2 of 10 menu entries (three layouts: .txtar, .txt, directory; case-escaped path; /v2 path; pre-release versions ending in digits and in letters, pseudo, +incompatible and path-mismatched versions) plus an unrelated file, one symbolic content byte per stored module; one request: list / .info / .mod / .zip / unknown extension / version not stored, for each menu module or an unknown module",
+			"thorough": "up to 5 stored entries",
+		},
+		Stubs:       []string{"net/http.NotFound and http.Error record the status", "archive/zip.NewWriter/Create/Close replaced by a recorder of (name, content) entries: the zip container encoding is not examined", "par.Cache.Do invokes its function directly (once-per-key under concurrency is C10)", "file system model as C05 (os.ReadDir, os.ReadFile, filepath.WalkDir through it)"},
+		Assumptions: append([]string{"PART CLAIMED: module discovery from file names, routing and unescaping, list = exactly the valid non-pseudo stored versions, .info/.mod byte-identical to the stored files, zip = exactly the stored files whose names do not start with a dot under path@version/ with identical contents, 404 for everything not stored. NOT claimed: the HTTP transport, the zip encoding, commit-hash resolution (all-hex versions; needs encoding/json), responses under concurrent requests"}, commonAssumptions...),
+		Outside:     []string{"concurrent requests (the caches are par.Cache: C10)", "all-hex version requests", "module paths and versions outside the menu; file contents longer than the templates"},
 	},
 	{
 		ID: "C11", Pkg: "cache", UsesVFS: true,
